@@ -1,12 +1,8 @@
 #!/bin/sh
-# runs every seeded change against the check of its property (and prints one summary line per seed)
+# runs every seeded change against the check of its property (plus the checks listed in seeded/CHECKS.txt for seeds
+# that are also reported by another property's check); one summary line per (seed, check).
+# usage: seed_matrix.sh [parallelism] [seed ids...]      (VERIF_JOBS bounds the processes of each check)
 cd /verif
-for d in seeded/*/; do
-  id=$(basename $d); prop=${id%-*}
-  out=$(./tools/seed_run.sh $id $prop 2>&1)
-  rc=$(echo "$out" | sed -n 's/^== seed .* exit \([0-9]*\)$/\1/p' | head -1)
-  nv=$(echo "$out" | grep -c '^VIOLATION')
-  nr=$(echo "$out" | grep '^VIOLATION' | grep -vc 'no-failing-input-found')
-  first=$(echo "$out" | grep '^VIOLATION' | head -1 | sed 's/.*obligation=//' | cut -c1-110)
-  echo "$id exit=$rc violations=$nv replayed=$nr first=$first"
-done
+P=${1:-2}; [ $# -gt 0 ] && shift
+ids="$@"; [ -z "$ids" ] && ids=$(ls -d seeded/*/ | xargs -n1 basename)
+for id in $ids; do echo $id; done | xargs -P $P -n1 sh tools/seed_one.sh
